@@ -10,6 +10,7 @@ mod xstate;
 mod m_quals;
 mod m_builder;
 mod m_checksum;
+mod m_shapes;
 
 use common::Tier;
 
